@@ -4,7 +4,6 @@ import (
 	"encoding/json"
 	"fmt"
 	"path/filepath"
-	"sort"
 	"time"
 
 	"verif/internal/core"
@@ -219,11 +218,6 @@ func C11(r *core.Run) {
 	r.Set("hook_hits", hits)
 	r.Set("max_case_duration_ms", maxMs)
 	r.Set("worker_godebug", godebug)
-	keys := []string{}
-	for k := range sizeHist {
-		keys = append(keys, k)
-	}
-	sort.Strings(keys)
 	r.JudgeRaces(core.ParseRaceLogs(filepath.Join(r.WorkDir, "race-")))
 	r.Finish(r.Pick(140, 3800))
 }
